@@ -40,6 +40,7 @@ package btcdiff
 
 //@ func bitcoinDifficultyMaintainer.getBlockHeaders
 //@   property C43
+//@   modifies ghost.hdrFetches, ghost.lastHdr
 //@   requires lastHeaderHeight <= 4611686018427387904 && firstHeaderHeight <= lastHeaderHeight + 1
 //@   ensures [exactly-the-headers-of-the-range-in-order] err == nil ==> len(result0) == lastHeaderHeight - firstHeaderHeight + 1 && (forall k int :: 0 <= k && k < len(result0) ==> result0[k] == @headerAt(bdm.btcChain, firstHeaderHeight + k))
 //@   loop 1 invariant firstHeaderHeight <= height && height <= lastHeaderHeight + 1 && len(headers) == height - firstHeaderHeight && (forall k int :: 0 <= k && k < len(headers) ==> headers[k] == @headerAt(bdm.btcChain, firstHeaderHeight + k))
@@ -52,7 +53,7 @@ package btcdiff
 //@ func bitcoinDifficultyMaintainer.proveNextEpoch
 //@   property C43
 //@   requires [eligibility-verified-before-proving] ghost.bdReady && ((bdm.config.DisableProxy && ghost.bdAuthorized) || (!bdm.config.DisableProxy && ghost.bdAuthorizedRefund))
-//@   modifies ghost.btcLatestHeight, ghost.relayEpoch, ghost.proofLen, ghost.ctxDone, alloc
+//@   modifies ghost.btcLatestHeight, ghost.relayEpoch, ghost.proofLen, ghost.ctxDone, ghost.hdrFetches, ghost.lastHdr, alloc
 //@   assert call:Chain.Retarget : [direct-path-only-when-proxy-disabled] bdm.config.DisableProxy && ghost.bdAuthorized
 //@   assert call:Chain.Retarget : [headers-are-the-2L-around-the-next-epoch-boundary] len(arg0) == 2 * ghost.proofLen && (forall k int :: 0 <= k && k < 2 * ghost.proofLen ==> arg0[k] == @headerAt(bdm.btcChain, (ghost.relayEpoch + 1) * 2016 - ghost.proofLen + k))
 //@   assert call:Chain.Retarget : [tip-has-reached-the-last-header] ghost.btcLatestHeight >= (ghost.relayEpoch + 1) * 2016 + ghost.proofLen - 1
